@@ -722,9 +722,22 @@ func (s *scanner) readInlineImage() (Operator, error) {
 	if class[b] == space {
 		s.ReadByte()
 	}
+	// For the ASCII filters more white space may follow.  Only white space
+	// is skipped, not comments: "%" is a digit of ASCII85.  If the skipped
+	// white space ends in an end-of-line marker, an EI which follows
+	// immediately (empty image data) is recognised below.
+	var prevByte byte
 	if isASCIIFilter(filter) {
-		if err := s.SkipWhiteSpace(); err != nil {
-			return Operator{}, err
+		for {
+			b, err := s.Peek()
+			if err != nil {
+				return Operator{}, err
+			}
+			if class[b] != space {
+				break
+			}
+			s.ReadByte()
+			prevByte = b
 		}
 	}
 
@@ -749,7 +762,6 @@ func (s *scanner) readInlineImage() (Operator, error) {
 		}
 	} else {
 		// no Length key: read until we find [\r\n]EI pattern
-		var prevByte byte
 		for len(imageData) < maxInlineImageBytes {
 			// check for EI pattern: previous byte is \r or \n, followed by "EI" + delimiter
 			if (prevByte == '\r' || prevByte == '\n') && s.checkEI() {
